@@ -283,7 +283,9 @@ def load_known_findings():
 
 
 def write_evidence(prop, tier, seed, level, coverage, assumptions, wall_s, violations):
-    d = os.path.join(VERIF, "evidence")
+    # evidence describes runs against /repo itself; a run against another source tree (seeded-change
+    # evaluation via WALLEYE_REPO) writes under build/ instead
+    d = os.path.join(VERIF, "evidence") if os.path.realpath(REPO) == "/repo" else os.path.join(VERIF, "build", "evidence-other-tree")
     os.makedirs(d, exist_ok=True)
     ev = {"property_id": prop, "tier": tier, "seed": seed, "level": level, "coverage": coverage,
           "assumptions": assumptions, "wall_s": round(wall_s, 2), "violations": violations}
